@@ -197,7 +197,10 @@ def run(v, tier, seed):
         v.violation({"what": "model and implementation disagree; every request was answered as the protocol prescribes", "case": nm, "engine": "session", "driver": "session_driver",
                      "ops": [f"cfg auth={int(auth)}"] + [R(o) for o in ops[:i]], "impl": [(s, decode_msg(t)) for s, t in parse_out(A[nm][i])], "model": [(s, decode_msg(t)) for s, t in parse_out(B[nm][i])],
                      "disagreeing_cases": len(set(n_ for n_, _ in diffs)), "broken_obligation": "correspondence session/C13 (Model/Session.v handle, answer, route_events)"}, no_input=True)
+    if not v.violations:
+        import storm
+        v.cov["concurrent"] = storm.run_storms(v, tier, seed + 1, work, "-c13", "For C13: pipelined requests are answered one each, in order, with their own ids; events only after the Ack.")
     v.cov.update({"evaluations": len(cases), "distinct_nontrivial": len(nontrivial), "disagreements": len(diffs), "requests_sent": nreq, "error_answers": nerr,
                   "rule": f"a real in-process server with a unix-socket endpoint per case; 1-3 concurrent sessions; {n} random request sequences over all 21 request kinds of protocol v0/v1 with valid and invalid arguments (wrong versions, missing keys, ill-formed patterns, unknown subscriptions, protected keys, wildcard keys), protocol switches incl. an unsupported version, client-side closes, a fifth of the cases with authorization required (valid / missing / bad tokens, grants of different widths) + one table case per protocol version sending every kind once; after every line the harness waits for the sockets to go quiet; all messages per session compared with the model; oracle: exactly one terminal answer with the request's id, of the kind the protocol assigns or Err, events only after the Ack, no failing request closes the session; non-trivial = a case with at least one Err answer",
                   "samples": samples,
-                  "runtime_note": "requests are sent one at a time and the sockets are drained until quiet, so interleaving of answers of different requests on the wire is not exercised (and not constrained by the property)"})
+                  "runtime_note": "in the random sequences requests are sent one at a time and the sockets are drained until quiet; pipelined requests and the interleaving of answers with subscription traffic are exercised by the concurrent cases (`concurrent`) and covered for every schedule by Proofs/ConcFacts.v"})
